@@ -1,6 +1,11 @@
 import Dcg.Proofs.Repr
 import Dcg.Proofs.Escape
 import Dcg.Props.C10
+import Dcg.Proofs.TemplateBlockTop
+import Dcg.Proofs.TemplateCheckBlockB
+import Dcg.Proofs.TemplateCheckBlockC
+import Dcg.Proofs.TemplateFixture
+import Dcg.Gen.CodeSites
 /-
 C01 — generation terminates and every emitted module is valid Python.
 
@@ -86,5 +91,137 @@ theorem docstring_slot_exact (text pre post rest : List Char)
     scanLong '"' (pre ++ Dcg.Model.Escape.escDoc 0 text ++ '\n' :: post ++ ['"', '"', '"'] ++ rest) =
       some (pre ++ Dcg.Model.Escape.normNL (text ++ ['\n']) ++ post, rest) :=
   Dcg.Props.C10.docstring_literal_exact text pre post rest hpre hpost
+
+
+/-! ### Template-level well-formedness: the class templates themselves, for all environments
+
+The 16 Jinja templates are part of the model (`Gen/TemplateAst`, regenerated from the template
+sources by jinja2's own parser on every run) and are given meaning by the interpreter
+`Model.Template.renderTemplate` (validated against the real templates on every run).  The theorems
+below quantify over EVERY render context.  `ValuesOK o` says that every value interpolated during
+the rendering `o` — except docstring text, for which nothing is assumed — satisfies the invariant
+of its reviewed site class (`Proofs.TemplateBlock.BlockHyp`: identifiers, type hints, repr values,
+base lists, decorators are one line that neither starts with a blank nor is the keyword `class`,
+header sites contain no `#`; comment text is one line).  `blockOf text` is the final state of the
+block automaton of `Model/TemplateBlock` on the text. -/
+
+section Templates
+open Dcg.Model.TemplateSyntax Dcg.Model.Template Dcg.Model.TemplateAbs Dcg.Model.TemplateBlock
+open Dcg.Proofs.TemplateAbs Dcg.Proofs.TemplateBlock Dcg.Proofs.TemplateBlockTop Dcg.Proofs.TemplateCheckBlock
+open Dcg.Gen.TemplateAst
+
+/-- the templates that always produce a class statement -/
+def classTemplates : List String := groupA ++ groupB
+
+theorem classTemplate_check (name : String) (hn : name ∈ classTemplates) (t : List Tpl)
+    (ht : templates.lookup name = some t) :
+    check blockAuto BSt.init goodClass [] (factExprs t) t = true := by
+  have hall : blockCheckAll goodClass classTemplates = true := by
+    unfold blockCheckAll classTemplates
+    rw [List.all_append]
+    exact Bool.and_eq_true_iff.mpr ⟨groupA_ok, groupB_ok⟩
+  have := List.all_eq_true.mp hall name hn
+  simpa [ht] using this
+
+/-- **Every class has a body** (the defect repaired by f450658, now a theorem about every class
+template as it is in the tree): for each of the 8 class templates and EVERY render context, if the
+rendering succeeds and the interpolated values satisfy their class invariants, the text contains a
+line that starts with `class ` in column 0 and ends in `:` (before an optional `#` comment), and
+after it a non-blank line indented by at least 4 blanks; the text does not end on the header line. -/
+theorem class_body_nonempty (name : String) (hn : name ∈ classTemplates) (t : List Tpl)
+    (ht : templates.lookup name = some t) (ctx : List (String × Val)) (o : Out)
+    (hr : renderTemplate ctx t = .ok o) (hv : ValuesOK o) :
+    (blockOf o.text).phase = .inBody ∧ (blockOf o.text).hdr = false := by
+  have h := block_check_sound goodClass [] _ t (classTemplate_check name hn t ht) ctx o hr (Consistent_nil _) hv
+  unfold goodClass good at h
+  simp only [Bool.and_eq_true, Bool.not_eq_true', beq_iff_eq] at h
+  exact ⟨h.2, h.1.1.2⟩
+
+/-- **The class is one block**: under the same hypotheses no line after the header breaks the
+block — every line after the `class` line is blank or starts with at least 4 blanks (docstring
+lines included: that is what `indent(4)` is for), and the header line ends in `:`. -/
+theorem class_body_lines_indented (name : String) (hn : name ∈ classTemplates) (t : List Tpl)
+    (ht : templates.lookup name = some t) (ctx : List (String × Val)) (o : Out)
+    (hr : renderTemplate ctx t = .ok o) (hv : ValuesOK o) :
+    (blockOf o.text).bad = false := by
+  have h := block_check_sound goodClass [] _ t (classTemplate_check name hn t ht) ctx o hr (Consistent_nil _) hv
+  unfold goodClass good at h
+  simp only [Bool.and_eq_true, Bool.not_eq_true', beq_iff_eq] at h
+  exact h.1.1.1
+
+/-- `pydantic_v2/BaseModel.jinja2` renders either `Name = Base` or a class; if it is a class, the
+class is well formed (same reading as above). -/
+theorem v2_basemodel_alias_or_class (t : List Tpl)
+    (ht : templates.lookup "pydantic_v2/BaseModel.jinja2" = some t) (ctx : List (String × Val)) (o : Out)
+    (hr : renderTemplate ctx t = .ok o) (hv : ValuesOK o) :
+    good (blockOf o.text) = true := by
+  have hc : check blockAuto BSt.init good [] (factExprs t) t = true := by
+    have := List.all_eq_true.mp groupC_ok "pydantic_v2/BaseModel.jinja2" (by simp [groupC])
+    simpa [ht] using this
+  exact block_check_sound good [] _ t hc ctx o hr (Consistent_nil _) hv
+
+/-- `pydantic/Config.jinja2` (`class Config:` nested into pydantic v1 models): the class has a body
+in every context in which `config.dict(exclude_unset=True).items()` is non-empty — an invariant of
+`model/pydantic/base_model.py` (a Config object is only built from a non-empty parameter dict), not
+of the template; without it the analysis reports the empty class (`config_needs_assumption`). -/
+theorem config_class_body_nonempty (t : List Tpl)
+    (ht : templates.lookup "pydantic/Config.jinja2" = some t) (ctx : List (String × Val)) (o : Out)
+    (hr : renderTemplate ctx t = .ok o) (hv : ValuesOK o)
+    (hcfg : ∀ v, eval ⟨ctx, []⟩ configItems = .ok v → truthy v = true) :
+    goodClass (blockOf o.text) = true := by
+  have hc : check blockAuto BSt.init goodClass [(configItems, true)] [] t = true := by
+    have := config_ok
+    simpa [ht] using this
+  refine block_check_sound goodClass _ [] t hc ctx o hr ?_ hv
+  intro e b hm v hev
+  have : (e, b) = (configItems, true) := by simpa using hm
+  cases this
+  exact hcfg v hev
+
+/-- the analysis is not vacuous: on `Enum.jinja2` as it was before the repair it fails, and the
+environment it names is the one of the reported defect (no members, no description) -/
+theorem enum_before_fix_rejected :
+    check blockAuto BSt.init goodClass [] (factExprs Dcg.Proofs.TemplateFixture.enumBeforeFix)
+      Dcg.Proofs.TemplateFixture.enumBeforeFix = false ∧
+    refute blockAuto BSt.init goodClass [] (factExprs Dcg.Proofs.TemplateFixture.enumBeforeFix)
+      Dcg.Proofs.TemplateFixture.enumBeforeFix =
+      some [(.name "decorators", false), (.name "description", false), (.name "fields", false)] :=
+  ⟨Dcg.Proofs.TemplateFixture.enumBeforeFix_rejected, Dcg.Proofs.TemplateFixture.enumBeforeFix_counterexample⟩
+
+/-- non-vacuity of the class theorems: a real rendering of `Enum.jinja2` (no members, a
+description) that satisfies the hypotheses; what the block automaton accepts and rejects -/
+example : (match renderTemplate [("class_name", .str "E".toList), ("base_class", .str "Enum".toList),
+      ("description", .str "a\nb".toList), ("fields", .list [])] t_Enum with
+    | .ok o => o.text == "class E(Enum):\n    \"\"\"\n    a\n    b\n    \"\"\"".toList &&
+        o.slots.length == 3
+    | .error _ => false) = true := by decide +kernel
+/-- …and its interpolated values satisfy the hypotheses of the theorems (`ValuesOK`) -/
+example : ∃ o, renderTemplate [("class_name", .str "E".toList), ("base_class", .str "Enum".toList),
+      ("description", .str "a\nb".toList), ("fields", .list [])] t_Enum = .ok o ∧ ValuesOK o := by
+  refine ⟨_, rfl, valuesOKb_sound ?_⟩
+  decide +kernel
+example : goodClass (blockOf "class E(Enum):\n    \"\"\"\n    a\n    b\n    \"\"\"".toList) = true := by decide
+example : goodClass (blockOf "@dataclass\nclass A:  # c\n    pass".toList) = true := by decide
+example : good (blockOf "class E(Enum):".toList) = false := by decide
+example : good (blockOf "class E(Enum):\n".toList) = false := by decide
+example : good (blockOf "class E(Enum):\npass".toList) = false := by decide
+example : good (blockOf "class E(Enum)\n    pass".toList) = false := by decide
+example : good (blockOf "class E(Enum):\n    a = 1\nb = 2".toList) = false := by decide
+example : good (blockOf "E = Base".toList) = true ∧ goodClass (blockOf "E = Base".toList) = false := by decide
+
+end Templates
+
+/-! ### Keyword names of `Field(...)` written by Python code -/
+
+/-- **Every extra key that can become a keyword NAME of `Field(...)` goes through the identifier
+sanitiser.** The key expressions of `JsonSchemaParser.get_field_extras` (followed through helper
+methods of the class; regenerated from the source's AST on every run) are all calls of
+`self.get_field_extra_key(…)`, which for field models that write extras as keyword arguments
+(pydantic v1) is `ModelResolver.get_valid_field_name_and_alias(key)[0]` — a Python identifier (C07).
+A path that returns `key.lstrip("x-")` without the sanitiser breaks this theorem
+(`Field(None, display-name=…)` would not parse). -/
+theorem field_extra_keys_sanitised :
+    Dcg.Gen.CodeSites.fieldExtraKeySites.all (fun s => s.2.2) = true ∧
+    Dcg.Gen.CodeSites.fieldExtraKeySites ≠ [] := by decide
 
 end Dcg.Props.C01
